@@ -211,6 +211,8 @@ def split_goal(s):
     for cidx in range(size):
         d = {k: v for k, v in s.items() if k not in ("vars", "nominal", "range", "tmin", "tmax")}
         d["vars"] = [s["vars"][cidx]]
+        if s.get("offset"):
+            d["offset"] = [s["offset"][cidx]]
         d["nominal"] = [s["nominal"][cidx] if len(s["nominal"]) > 1 else s["nominal"][0]]
         if "range" in s:
             lo, hi = s["range"]
@@ -466,7 +468,7 @@ def corpus(c):
 
 def probe_constant_term(c):
     """goal function with a constant offset: plain qpsol reports f including the constant, the caching
-    front-end reports the conic cost only (tmp id F42b)"""
+    front-end reports the conic cost only (F48, repaired)"""
     from rtctools.optimization.goal_programming_mixin_base import Goal
 
     class Off(Goal):
@@ -488,17 +490,17 @@ def probe_constant_term(c):
     for caching in (False, True):
         out, pr = S.run_instance(dict(inst, caching_qpsol=caching), extra_bases=(Extra,), capture_full=False)
         vals[caching] = (out, objs(pr))
-    c.count(("probe", "F42b"))
+    c.count(("probe", "F48"))
     bad = not (vals[False][0] is True and vals[True][0] is True
                and all(abs(a - b) <= 1e-6 * (1 + abs(a)) for a, b in zip(vals[False][1], vals[True][1])))
     what = ("CachingQPSol reports per-priority objective values %s, plain qpsol %s for a goal function with a "
             "constant term (state('u') + 7 on 3 steps)" % (vals[True][1], vals[False][1]))
-    entry = next((k for k in c.known if k["id"] == "F42b"), None)
+    entry = next((k for k in c.known if k["id"] == "F48"), None)
     if entry is None:
-        c.extra.setdefault("candidate_findings", []).append({"id": "F42b", "reproduced": bad, "what": what})
-        c.hit("probe/F42b-" + ("reproduced(unlisted)" if bad else "not-reproduced"))
+        c.extra.setdefault("candidate_findings", []).append({"id": "F48", "reproduced": bad, "what": what})
+        c.hit("probe/F48-" + ("reproduced(unlisted)" if bad else "not-reproduced"))
     else:
-        c.known_probe("F42b", bad, what)
+        c.known_probe("F48", bad, what)
 
 
 def pairs_linearized(c, n):
